@@ -40,7 +40,9 @@ import (
 
 type connReadOp struct{ c *vconn }
 
-func (o connReadOp) Enabled() bool  { return o.c.in.Len() > 0 || o.c.closed }
+func (o connReadOp) Enabled() bool {
+	return o.c.in.Len() > 0 || o.c.closed || (o.c.link != nil && o.c.link.closed)
+}
 func (o connReadOp) String() string { return "conn.Read" }
 
 type vconn struct {
@@ -50,11 +52,16 @@ type vconn struct {
 	closes  int
 	failWr  bool // writes fail (connection loss on the write side)
 	wrCalls int
+	// link: the other end when two real peers are wired to each other; what
+	// this end writes becomes readable there *before* Write returns (as with a
+	// socket or pipe), so Write has a second scheduling point after the data
+	// has been handed over
+	link *vconn
 }
 
 func (c *vconn) Read(b []byte) (int, error) {
 	vsched.Point(connReadOp{c})
-	if c.in.Len() == 0 && c.closed {
+	if c.in.Len() == 0 && (c.closed || (c.link != nil && c.link.closed)) {
 		return 0, io.EOF
 	}
 	return c.in.Read(b)
@@ -68,6 +75,15 @@ func (c *vconn) Write(b []byte) (int, error) {
 	}
 	if c.failWr {
 		return 0, errors.New("injected write error")
+	}
+	if c.link != nil {
+		if c.link.closed {
+			return 0, errors.New("write: broken pipe")
+		}
+		c.link.in.Write(b)
+		n, err := c.out.Write(b)
+		vsched.Yield("conn.Write returns")
+		return n, err
 	}
 	return c.out.Write(b)
 }
@@ -621,12 +637,40 @@ type lifeObs struct {
 	leakBlocked []string
 	pongOnWire  int
 	ticked      bool
+	selfProblem string // selfpair: a peer wired to a peer of its own process got through the handshake
 }
 
 func runLife(lc lifeCase, prefix []int) (*vsched.Exec, *lifeObs) {
 	o := &lifeObs{doneCount: map[uint64]int{}, retTime: map[uint64]int{}, callTime: map[uint64]int{}}
 	body := func() {
 		vtime.ResetRegistry()
+		if lc.Name == "selfpair" {
+			// an outbound and an inbound peer of this process wired to each other
+			// (the node dialled its own listening address): both must refuse
+			var logO, logI []string
+			a, b := &vconn{}, &vconn{}
+			a.link, b.link = b, a
+			po := newPeer(false, false, &logO)
+			pi := newPeer(true, false, &logI)
+			vsched.BeginExplore()
+			po.AssociateConnection(a)
+			pi.AssociateConnection(b)
+			vsched.WaitQuiescent()
+			switch {
+			case po.VerAckReceived() || pi.VerAckReceived():
+				o.selfProblem = fmt.Sprintf("self-connection completed the handshake: outbound verack=%v inbound verack=%v; callbacks outbound %v inbound %v", po.VerAckReceived(), pi.VerAckReceived(), logO, logI)
+			case len(logO)+len(logI) > 0:
+				o.selfProblem = fmt.Sprintf("self-connection delivered messages to the application: outbound %v inbound %v", logO, logI)
+			case po.Connected() || pi.Connected():
+				o.selfProblem = fmt.Sprintf("self-connection still up at quiescence: outbound connected=%v inbound connected=%v", po.Connected(), pi.Connected())
+			}
+			po.Disconnect()
+			pi.Disconnect()
+			po.WaitForDisconnect()
+			pi.WaitForDisconnect()
+			vsched.WaitQuiescent()
+			return
+		}
 		clock := 0
 		tick := func() int { clock++; return clock }
 		var log []string
@@ -767,6 +811,9 @@ func checkLife(lc lifeCase, x *vsched.Exec, o *lifeObs) (string, string) {
 	if x.Deadlock {
 		return "leak", "deadlock / goroutine leak: blocked threads: " + strings.Join(x.Blocked, "; ")
 	}
+	if o.selfProblem != "" {
+		return "self-connection", o.selfProblem
+	}
 	// completion signals: never twice; exactly once when queued before the disconnect request
 	var keys []uint64
 	for n := range o.callTime {
@@ -893,6 +940,9 @@ func lifeCases(thorough bool) []lifeCase {
 			for _, disc := range []string{"api", "remote-close", "timeout"} {
 				out = append(out, lifeCase{Name: "hs-" + hs, Inbound: inbound, Queuers: 1, PerQ: 1, Hs: hs, Disc: disc, Bound: b})
 			}
+		}
+		if !inbound {
+			out = append(out, lifeCase{Name: "selfpair", Disc: "none", Bound: b})
 		}
 		out = append(out, lifeCase{Name: "inv", Inbound: inbound, Queuers: 1, PerQ: 1, Inv: true, Disc: "api", Bound: b})
 		out = append(out, lifeCase{Name: "rping", Inbound: inbound, Queuers: 1, PerQ: 1, RemotePing: true, Disc: "api", Bound: b})
